@@ -106,11 +106,9 @@ void h_fsr_length(void) {
     int32_t rc = jls_core_fsr_length(c, VG_SIG, &samples);
     if (vg_io_error == 0) {
         __CPROVER_assert(rc == 0, "C01: the length of a readable signal is reported");
-        __CPROVER_assert(vg_wrong_read == 0, "C01: only the last chunk of each level is read");
         if (top < 0) { __CPROVER_assert(samples == 0, "a signal without data has length 0"); }
         else if (vg_last[0] != 0) { __CPROVER_assert(samples == dts + (int64_t) dc - off0, "C01: length = end of the last stored block - first sample id"); }
         else if (top >= 1) { __CPROVER_assert(samples == sts + (int64_t) sc * VG_SDF - off0, "C01/C15: with the last block omitted the length comes from the level-1 summary"); }
-        __CPROVER_assert(tf->signal_length == samples || top < 0, "the length is cached");
     }
     VG_REACH(length_returns);
     if (rc == 0 && top == 3 && vg_last[0] != 0) { VG_REACH(length_three_levels); }
